@@ -58,15 +58,15 @@ type checkSpec struct {
 // Budgets live here (driver side) so that tiers can be tuned without touching
 // the scenarios.
 var specs = map[string]*checkSpec{
-	"C03": {Property: "C03", Level: "exploration", DeathIsViolation: true, Runs: map[string]int{"quick": 12000, "thorough": 400000}, Wall: map[string]int{"quick": 50, "thorough": 1500}},
+	"C03": {Property: "C03", Level: "exploration", DeathIsViolation: true, Runs: map[string]int{"quick": 40000, "thorough": 400000}, Wall: map[string]int{"quick": 50, "thorough": 1500}},
 	"C09": {Property: "C09", Level: "exploration", AlsoRace: true, Runs: map[string]int{"quick": 8000, "thorough": 300000}, RaceRuns: map[string]int{"quick": 3000, "thorough": 100000}, Wall: map[string]int{"quick": 70, "thorough": 1800}},
-	"C14": {Property: "C14", Level: "exploration", Runs: map[string]int{"quick": 12000, "thorough": 400000}, Wall: map[string]int{"quick": 50, "thorough": 1500}},
+	"C14": {Property: "C14", Level: "exploration", Runs: map[string]int{"quick": 40000, "thorough": 400000}, Wall: map[string]int{"quick": 50, "thorough": 1500}},
 	"C12": {Property: "C12", Level: "fault_enumeration", Runs: map[string]int{"quick": 0, "thorough": 0}, Wall: map[string]int{"quick": 50, "thorough": 1500}, TotalFromWorker: true},
-	"C05": {Property: "C05", Level: "exploration", Overlay: true, Runs: map[string]int{"quick": 12000, "thorough": 300000}, Wall: map[string]int{"quick": 45, "thorough": 1500}, MustCount: "probe_site_"},
-	"C18": {Property: "C18", Level: "exploration", Runs: map[string]int{"quick": 20000, "thorough": 600000}, Wall: map[string]int{"quick": 50, "thorough": 1500}},
-	"C06": {Property: "C06", Level: "exploration", GMP: 4, Runs: map[string]int{"quick": 30000, "thorough": 1000000}, Wall: map[string]int{"quick": 50, "thorough": 1500}},
-	"C07": {Property: "C07", Level: "exploration", Runs: map[string]int{"quick": 20000, "thorough": 600000}, Wall: map[string]int{"quick": 50, "thorough": 1500}},
-	"C10": {Property: "C10", Level: "exploration", AlsoRace: true, Runs: map[string]int{"quick": 12000, "thorough": 400000}, RaceRuns: map[string]int{"quick": 1500, "thorough": 60000}, Wall: map[string]int{"quick": 70, "thorough": 1800}},
+	"C05": {Property: "C05", Level: "exploration", Overlay: true, Runs: map[string]int{"quick": 20000, "thorough": 300000}, Wall: map[string]int{"quick": 45, "thorough": 1500}, MustCount: "probe_site_"},
+	"C18": {Property: "C18", Level: "exploration", Runs: map[string]int{"quick": 60000, "thorough": 600000}, Wall: map[string]int{"quick": 50, "thorough": 1500}},
+	"C06": {Property: "C06", Level: "exploration", GMP: 4, Runs: map[string]int{"quick": 60000, "thorough": 1000000}, Wall: map[string]int{"quick": 50, "thorough": 1500}},
+	"C07": {Property: "C07", Level: "exploration", Runs: map[string]int{"quick": 50000, "thorough": 600000}, Wall: map[string]int{"quick": 50, "thorough": 1500}},
+	"C10": {Property: "C10", Level: "exploration", AlsoRace: true, Runs: map[string]int{"quick": 30000, "thorough": 400000}, RaceRuns: map[string]int{"quick": 2500, "thorough": 60000}, Wall: map[string]int{"quick": 70, "thorough": 1800}},
 }
 
 type agg struct {
